@@ -8,6 +8,9 @@ import Mathlib.Algebra.Order.Field.Power
 import Mathlib.Tactic.Positivity
 import Mathlib.Tactic.NormNum
 import Mathlib.Algebra.Order.Archimedean.Basic
+import Mathlib.Algebra.BigOperators.Intervals
+import Mathlib.Algebra.Order.BigOperators.Group.Finset
+import Mathlib.Algebra.BigOperators.Ring.Finset
 
 namespace Verif.C17
 open Verif.Py
@@ -781,5 +784,208 @@ theorem sum_take_drop (l : List Int) (a b : Nat) : ((l.take b).drop a).sum = win
       | zero => simp [← ih]
       | succ a => simp [← ih]
 
+
+/-! ### centroid refinement: convolutions as window moments, centre of mass -/
+section Centroid
+open Finset
+
+theorem list_range_sum (n : Nat) (f : Nat → Rat) : ((List.range n).map f).sum = ∑ i ∈ range n, f i := by
+  induction n with
+  | zero => simp
+  | succ n ih => rw [List.range_succ, List.map_append, List.sum_append, ih, Finset.sum_range_succ]; simp
+
+theorem dirKernel_get (h i : Nat) (hi : i < 2 * h + 1) : ((dirKernel h)[i]?).getD 0 = (((h : Int) - (i : Int) : Int) : Rat) := by
+  unfold dirKernel
+  simp [hi]
+
+theorem meanKernel_get (h i : Nat) (hi : i < 2 * h + 1) : ((meanKernel h)[i]?).getD 0 = 1 := by
+  unfold meanKernel
+  simp [hi]
+
+/-- zeroth window moment: the `ones` convolution is the sum of the `2h+1` pixels around `p` -/
+theorem conv_mean (line : List Rat) (h : Nat) (p : Int) :
+    convSame line (meanKernel h) h p = ∑ j ∈ range (2 * h + 1), dAt line (p - h + j) := by
+  unfold convSame
+  rw [list_range_sum]
+  have hl : (meanKernel h).length = 2 * h + 1 := by simp [meanKernel]
+  rw [hl, ← Finset.sum_range_reflect]
+  apply Finset.sum_congr rfl
+  intro j hj
+  have hj' : j < 2 * h + 1 := Finset.mem_range.1 hj
+  rw [meanKernel_get h _ (by omega), one_mul]
+  congr 1
+  omega
+
+/-- first window moment: the `[h … −h]` convolution is `Σ (q − p)·data[q]` over the same pixels -/
+theorem conv_dir (line : List Rat) (h : Nat) (p : Int) :
+    convSame line (dirKernel h) h p = ∑ j ∈ range (2 * h + 1), (((j : Int) - h : Int) : Rat) * dAt line (p - h + j) := by
+  unfold convSame
+  rw [list_range_sum]
+  have hl : (dirKernel h).length = 2 * h + 1 := by simp [dirKernel]
+  rw [hl, ← Finset.sum_range_reflect]
+  apply Finset.sum_congr rfl
+  intro j hj
+  have hj' : j < 2 * h + 1 := Finset.mem_range.1 hj
+  rw [dirKernel_get h _ (by omega)]
+  congr 2
+  · omega
+  · omega
+
+
+/-- pixel `q` of the line as a total function on `Nat` -/
+def pix (line : List Rat) (q : Nat) : Rat := (line[q]?).getD 0
+
+theorem dAt_nat (line : List Rat) (q : Nat) : dAt line (q : Int) = pix line q := by
+  unfold dAt pix
+  have : ¬ ((q : Int) < 0) := by omega
+  simp [this]
+
+theorem dAt_out (line : List Rat) (z : Int) (h : z < 0 ∨ (line.length : Int) ≤ z) : dAt line z = 0 := by
+  unfold dAt
+  rcases h with h | h
+  · simp [h]
+  · have h0 : ¬ z < 0 := by omega
+    have : line.length ≤ z.toNat := by omega
+    simp [h0, List.getElem?_eq_none this]
+
+/-- a window sum with zero padding = the sum over the pixels of the line that lie in the window -/
+theorem window_sum_eq (line : List Rat) (F : Int → Rat) (a : Int) (m : Nat) :
+    ∑ j ∈ range m, F (a + j) * dAt line (a + j)
+      = ∑ q ∈ range line.length, if a ≤ (q : Int) ∧ (q : Int) < a + m then F q * pix line q else 0 := by
+  induction m with
+  | zero =>
+    rw [Finset.sum_range_zero]
+    symm
+    apply Finset.sum_eq_zero
+    intro q _
+    have : ¬ (a ≤ (q : Int) ∧ (q : Int) < a + ((0 : Nat) : Int)) := by omega
+    rw [if_neg this]
+  | succ m ih =>
+    rw [Finset.sum_range_succ, ih]
+    have hsplit : ∀ q : Nat, (if a ≤ (q : Int) ∧ (q : Int) < a + ((m + 1 : Nat) : Int) then F q * pix line q else 0)
+        = (if a ≤ (q : Int) ∧ (q : Int) < a + (m : Int) then F q * pix line q else 0)
+          + (if (q : Int) = a + m then F q * pix line q else 0) := by
+      intro q
+      by_cases h1 : a ≤ (q : Int) ∧ (q : Int) < a + (m : Int)
+      · have h2 : a ≤ (q : Int) ∧ (q : Int) < a + ((m + 1 : Nat) : Int) := by omega
+        have h3 : ¬ (q : Int) = a + m := by omega
+        rw [if_pos h2, if_pos h1, if_neg h3, add_zero]
+      · by_cases h3 : (q : Int) = a + m
+        · have h2 : a ≤ (q : Int) ∧ (q : Int) < a + ((m + 1 : Nat) : Int) := by omega
+          rw [if_pos h2, if_neg h1, if_pos h3, zero_add]
+        · have h2 : ¬ (a ≤ (q : Int) ∧ (q : Int) < a + ((m + 1 : Nat) : Int)) := by omega
+          rw [if_neg h2, if_neg h1, if_neg h3, add_zero]
+    rw [Finset.sum_congr rfl (fun q _ => hsplit q), Finset.sum_add_distrib]
+    congr 1
+    by_cases hin : 0 ≤ a + (m : Int) ∧ a + (m : Int) < line.length
+    · obtain ⟨q0, hq0⟩ : ∃ q0 : Nat, a + (m : Int) = q0 := ⟨(a + (m : Int)).toNat, by omega⟩
+      rw [hq0, dAt_nat]
+      have : ∀ q : Nat, (if (q : Int) = (q0 : Int) then F q * pix line q else 0) = if q = q0 then F q * pix line q else 0 := by
+        intro q
+        by_cases h : q = q0
+        · simp [h]
+        · have : ¬ (q : Int) = (q0 : Int) := by omega
+          simp [h, this]
+      rw [Finset.sum_congr rfl (fun q _ => this q), Finset.sum_ite_eq']
+      have : q0 ∈ range line.length := Finset.mem_range.2 (by omega)
+      simp [this]
+    · rw [dAt_out line _ (by omega), mul_zero]
+      symm
+      apply Finset.sum_eq_zero
+      intro q hq
+      have hq' : q < line.length := Finset.mem_range.1 hq
+      have : ¬ (q : Int) = a + m := by omega
+      simp [this]
+
+/-- total counts and first moment of a scan line -/
+def lineMass (line : List Rat) : Rat := ((List.range line.length).map fun q => pix line q).sum
+def lineMoment (line : List Rat) : Rat := ((List.range line.length).map fun (q : Nat) => (q : Rat) * pix line q).sum
+
+/-- every non-zero pixel of the line lies within `h` pixels of `p` -/
+def SpotInWindow (line : List Rat) (h : Nat) (p : Int) : Prop :=
+  ∀ q : Nat, q < line.length → pix line q ≠ 0 → p - h ≤ (q : Int) ∧ (q : Int) ≤ p + h
+
+theorem window_all (line : List Rat) (F : Int → Rat) (h : Nat) (p : Int) (hs : SpotInWindow line h p) :
+    ∑ j ∈ range (2 * h + 1), F (p - h + j) * dAt line (p - h + j) = ∑ q ∈ range line.length, F q * pix line q := by
+  rw [window_sum_eq]
+  apply Finset.sum_congr rfl
+  intro q hq
+  have hq' : q < line.length := Finset.mem_range.1 hq
+  by_cases h0 : pix line q = 0
+  · rw [h0]; simp
+  · have := hs q hq' h0
+    have h1 : p - (h : Int) ≤ (q : Int) ∧ (q : Int) < p - (h : Int) + ((2 * h + 1 : Nat) : Int) := by
+      push_cast; omega
+    rw [if_pos h1]
+
+/-- **centroid estimate of a spot that lies inside the window**: pixel + offset is the centre of mass of
+    the scan line, pulled towards the pixel centre by the regularisation `eps` -/
+theorem centroid_value (eps : Rat) (line : List Rat) (h : Nat) (p : Int) (hs : SpotInWindow line h p)
+    (hM : lineMass line + eps ≠ 0) :
+    (p : Rat) + subpixelOffset eps line h p = (lineMoment line + (p : Rat) * eps) / (lineMass line + eps) := by
+  unfold subpixelOffset
+  rw [conv_mean, conv_dir]
+  have hm0 : ∑ j ∈ range (2 * h + 1), dAt line (p - h + j) = lineMass line := by
+    have := window_all line (fun _ => 1) h p hs
+    simp only [one_mul] at this
+    rw [this, lineMass, list_range_sum]
+  have hm1 : ∑ j ∈ range (2 * h + 1), (((j : Int) - h : Int) : Rat) * dAt line (p - h + j)
+      = lineMoment line - (p : Rat) * lineMass line := by
+    have := window_all line (fun z => ((z - p : Int) : Rat)) h p hs
+    have e : ∀ j : Nat, (((p - (h : Int) + (j : Int)) - p : Int) : Rat) = (((j : Int) - h : Int) : Rat) := by
+      intro j; congr 1; omega
+    simp only [e] at this
+    rw [this, lineMoment, lineMass, list_range_sum, list_range_sum, Finset.mul_sum, ← Finset.sum_sub_distrib]
+    apply Finset.sum_congr rfl
+    intro q _
+    push_cast
+    ring
+  rw [hm0, hm1]
+  field_simp
+  ring
+
+
+theorem settle_stable (eps : Rat) (line : List Rat) (h : Nat) (fuel : Nat) (c c' : Int)
+    (hs : settle eps line h fuel c = some c') : stepCoord eps line h c' = c' := by
+  induction fuel generalizing c with
+  | zero =>
+    unfold settle at hs
+    split at hs
+    · injection hs with hs; subst hs; assumption
+    · cases hs
+  | succ n ih =>
+    unfold settle at hs
+    split at hs
+    · injection hs with hs; subst hs; assumption
+    · exact ih _ hs
+
+/-- the centre of mass of a non-negative spot inside the window is within `h` pixels of the pixel -/
+theorem com_near (line : List Rat) (h : Nat) (p : Int) (hs : SpotInWindow line h p)
+    (hpos : ∀ q, 0 ≤ pix line q) :
+    |(p : Rat) * lineMass line - lineMoment line| ≤ (h : Rat) * lineMass line := by
+  unfold lineMass lineMoment
+  rw [list_range_sum, list_range_sum, Finset.mul_sum, Finset.mul_sum, ← Finset.sum_sub_distrib, abs_le]
+  have key : ∀ q ∈ range line.length, -((h : Rat) * pix line q) ≤ (p : Rat) * pix line q - (q : Rat) * pix line q ∧
+      (p : Rat) * pix line q - (q : Rat) * pix line q ≤ (h : Rat) * pix line q := by
+    intro q hq
+    have hq' : q < line.length := Finset.mem_range.1 hq
+    by_cases h0 : pix line q = 0
+    · rw [h0]; simp
+    · have hb := hs q hq' h0
+      have h1 : ((p : Rat) - (q : Rat)) ≤ (h : Rat) := by
+        have : p - (q : Int) ≤ (h : Int) := by omega
+        exact_mod_cast this
+      have h2 : -(h : Rat) ≤ ((p : Rat) - (q : Rat)) := by
+        have : -(h : Int) ≤ p - (q : Int) := by omega
+        exact_mod_cast this
+      have hw := hpos q
+      constructor <;> nlinarith
+  constructor
+  · rw [← Finset.sum_neg_distrib]
+    exact Finset.sum_le_sum fun q hq => (key q hq).1
+  · exact Finset.sum_le_sum fun q hq => (key q hq).2
+
+
+end Centroid
 
 end Verif.C17
